@@ -3,7 +3,9 @@ package main
 import (
 	"encoding/json"
 	"fmt"
+	"github.com/hashicorp/raft/zzverif/vsched"
 	"sort"
+	"time"
 
 	"github.com/hashicorp/raft"
 )
@@ -197,7 +199,10 @@ func runC06(c c06case) (string, string) {
 				}
 			}()
 			if m.Kind == "elect" {
+				// electSelf asks every other voter from a goroutine of its own: let those run (their RPC is
+				// refused at once) so that they do not pile up across millions of cases
 				r.VerifElectSelf()
+				vsched.WaitAlways("electself-goroutines", func() bool { return len(vsched.G.Live(nil)) <= 1 })
 				return
 			}
 			respI, _ = r.VerifProcessRPC(cmd)
@@ -341,7 +346,7 @@ func enumC06(ctx *CheckCtx, shard, of int) *Stats {
 		for _, a := range msgs {
 			for _, b := range msgs {
 				for _, c := range msgs {
-					if a.Kind == "rv" && b.Kind != "pv" && c.Kind == "rv" {
+					if a.Kind == "rv" && b.Kind != "pv" && c.Kind == "rv" && a.TermOff >= 0 && a.TermOff <= 1 && c.TermOff >= 0 && c.TermOff <= 1 {
 						seqs = append(seqs, []c06msg{a, b, c})
 					}
 				}
@@ -365,6 +370,14 @@ func enumC06(ctx *CheckCtx, shard, of int) *Stats {
 						n++
 						if of > 1 && n%of != shard {
 							continue
+						}
+						if n%64 == 0 && !ctx.Deadline.IsZero() && time.Now().After(ctx.Deadline) {
+							st.Capped = true
+							return st
+						}
+						maxFaults := maxFaults
+						if len(seq) >= 3 {
+							maxFaults = 1 // two faults only on sequences of one or two messages
 						}
 						base := c06case{Term: term, VoteTerm: v.t, VoteCand: v.c, Log: lg, Cfg: cfg, Msgs: seq}
 						// fault-free run first, counting writes
